@@ -188,7 +188,9 @@ def run(ctx):
     for (_cmds, _t), _o, _f in zip(_specs, C.run_impl(impl_cmd_then_call, _specs, ctx["rundir"], limit=20.0), _fresh):
         if _o.get("hung") or _f.get("hung"):
             continue
-        if (_o.get("status"), _o.get("err")) != (_f.get("status"), _f.get("err")) or not (_o.get("err") or "").startswith("Unknown function"):
+        if not (_f.get("err") or "").startswith("Unknown function"):
+            continue            # the name is a function of this tree (a later version may well define it): nothing to compare
+        if (_o.get("status"), _o.get("err")) != (_f.get("status"), _f.get("err")):
             ctx["report"].violation(dict(kind="command-then-call", name=_t.split("(")[0]),
                                     "C10 fails: after the interpreter commands %s, `%s` is answered with %r; in a fresh process with %r (an unknown function name is rejected as unknown)"
                                     % (_cmds, _t, (_o.get("err") or "").strip()[:100], (_f.get("err") or "").strip()[:100]),
